@@ -203,6 +203,15 @@ fn scenarios(quick: bool) -> Vec<Scenario> {
         ));
     }
 
+    // S10: the first calls of a provided method that no clause mentions arrive at the same time
+    // (each instance creates its delegation helper lazily)
+    let s10 = vec![single(M::A, Entry::EachCall, 7, vec![seg(Resp::Ret(1001), Quant::Open)])];
+    base.push(("S10-first-delegations-2x1".into(), s10.clone(), vec![vec![(M::Def, 0)], vec![(M::Def, 1)]]));
+    base.push((
+        "S10-first-delegations-2x2".into(),
+        s10,
+        vec![vec![(M::Def, 0), (M::A, 0)], vec![(M::Def, 1), (M::Def, 0)]],
+    ));
     // S9: several calls that are refused at the same time (each error is about its own call)
     let s9 = vec![single(M::A, Entry::EachCall, 1, vec![seg(Resp::Ret(901), Quant::Open)])];
     base.push(("S9-two-refused".into(), s9.clone(), vec![vec![(M::A, 1)], vec![(M::A, 2)]]));
@@ -486,6 +495,8 @@ fn check_outcome(
     let mut handed: BTreeMap<PatId, Vec<Token>> = BTreeMap::new();
     for t in out.per_thread.iter().flatten() {
         match t {
+            // the result of a default body (a call that no pattern answers): not a position
+            Token::Value(v) if *v >= 700_000 => {}
             Token::Value(v) => match response_owner(model, *v) {
                 Some(id) => handed.entry(id).or_default().push(t.clone()),
                 None => return Err(("position", format!("value {v} belongs to no pattern"))),
